@@ -37,10 +37,10 @@ pub const FOR_TIME: &str = r#"FOR TIME "2030-01-01T00:00:00Z""#;
 /// the same questions.
 #[derive(Clone, Debug)]
 pub struct Spec {
-    /// `AS OF SEQ k` is read for every k in here.
+    /// `AS OF SEQ k` is read for every k in here: 0 and every journalled sequence.
     pub seqs: Vec<u64>,
-    /// `HISTORY ELEMENT` is probed for ids 1..=max_id of every kind.
-    pub max_id: u64,
+    /// `HISTORY ELEMENT` is probed for ids 1..=max of each kind (C, P, A, E, X).
+    pub max_id: [u64; 5],
     /// `DESCRIBE TRANSACTION "<space>#k"` is probed for k in 1..=max_tx.
     pub max_tx: u64,
     /// `BELIEF SLOT (:subject, "status")` is projected for these Concept ids.
@@ -55,10 +55,22 @@ fn as_of_clause(as_of: Option<u64>) -> String {
 }
 
 /// The queries that enumerate every element of every kind in every state.
+/// At a past coordinate the `state` matcher key never matches on this tree
+/// (see C18), so the historical enumeration uses the bare pattern (ordinary
+/// recall) plus the archived and pending states.
 pub fn element_queries(as_of: Option<u64>) -> Vec<String> {
     let at = as_of_clause(as_of);
     let mut out = Vec::new();
     for kind in KINDS {
+        if as_of.is_some() {
+            out.push(format!("FIND(?x) WHERE {{ ?x {kind} {{}} }}{at}"));
+            if kind == "CONCEPT" {
+                for state in ["archived", "pending"] {
+                    out.push(format!(r#"FIND(?x) WHERE {{ ?x {kind} {{state: "{state}"}} }}{at}"#));
+                }
+            }
+            continue;
+        }
         for state in STATES {
             out.push(format!(r#"FIND(?x) WHERE {{ ?x {kind} {{state: "{state}"}} }}{at}"#));
         }
@@ -74,6 +86,7 @@ fn count_queries(as_of: Option<u64>) -> Vec<String> {
     let at = as_of_clause(as_of);
     let mut out: Vec<String> = KINDS
         .iter()
+        .filter(|kind| as_of.is_none() || **kind == "CONCEPT")
         .map(|kind| format!("FIND(COUNT(?x)) WHERE {{ ?x {kind} {{}} }}{at}"))
         .collect();
     out.push(format!("FIND(COUNT(?p)) WHERE {{ ?p PROPOSITION (?s, ?pr, ?o) }}{at}"));
@@ -145,9 +158,25 @@ pub fn by_id(dump: &Dump) -> BTreeMap<String, Json> {
     out
 }
 
+/// The probing ranges depend only on what is committed (journal sequences,
+/// element ids), never on burned sequence numbers: a statement that changes
+/// nothing leaves the Spec unchanged, so its after-dump can serve as the next
+/// before-dump.
 pub fn spec_from(nx: &Nx, now: &Dump) -> Spec {
-    let seq = space_seq(nx);
-    let max_seen = by_id(now).keys().map(|id| id_number(id)).max().unwrap_or(0);
+    let journal = nx.q("HISTORY SPACE");
+    let mut seqs: Vec<u64> = vec![0];
+    if let Some(rows) = journal["ok"].as_array() {
+        seqs.extend(rows.iter().filter_map(|r| r["space_seq"].as_u64()));
+    }
+    seqs.sort();
+    seqs.dedup();
+    let max_tx = seqs.last().copied().unwrap_or(0) + 3;
+    let mut max_id = [3u64; 5];
+    for id in by_id(now).keys() {
+        if let Some(i) = ID_LETTERS.iter().position(|l| id.starts_with(l)) {
+            max_id[i] = max_id[i].max(id_number(id) + 3);
+        }
+    }
     let mut slot_subjects: Vec<String> = by_id(now)
         .iter()
         .filter(|(id, view)| id.starts_with("C-") && view["schema_ref"].as_str().is_some_and(|s| s.ends_with("/Person")))
@@ -155,9 +184,9 @@ pub fn spec_from(nx: &Nx, now: &Dump) -> Spec {
         .collect();
     slot_subjects.push("C-9001".to_string());
     Spec {
-        seqs: (0..=seq).collect(),
-        max_id: max_seen + 8,
-        max_tx: seq + 2,
+        seqs,
+        max_id,
+        max_tx,
         slot_subjects,
     }
 }
@@ -196,17 +225,13 @@ pub fn dump(nx: &Nx, spec: &Spec, now: Option<Dump>) -> Dump {
     for k in 1..=spec.max_tx {
         run_into(nx, &mut out, format!(r#"DESCRIBE TRANSACTION "{}#{k}""#, crate::fixture::SPACE));
     }
-    for letter in ID_LETTERS {
-        for n in 1..=spec.max_id {
+    for (i, letter) in ID_LETTERS.iter().enumerate() {
+        for n in 1..=spec.max_id[i] {
             run_into(nx, &mut out, format!(r#"HISTORY ELEMENT "{letter}-{n}""#));
         }
     }
     for &k in &spec.seqs {
         for text in element_queries(Some(k)) {
-            // the rarely used states are read at the present only
-            if text.contains("quarantined") || text.contains("purged") {
-                continue;
-            }
             run_into(nx, &mut out, text);
         }
         for text in count_queries(Some(k)) {
